@@ -83,7 +83,7 @@ def find_class(name):
 
 def resolve(key):
     """'cnvlib/call.py::absolute_threshold' -> python callable (unbound for methods)."""
-    rel, qual = key.split("::")
+    rel, qual = key.split("#")[0].split("::")     # "file::qual#rt" = run-time contract next to a deductive one
     modname = rel[:-3].replace("/", ".")
     if modname.endswith(".__init__"):
         modname = modname[:-9]
